@@ -684,7 +684,7 @@ def classify_failures(text, lat, status):
 
 
 def run_sweep(res, tier, rng):
-    n_decks = 80 if tier == 'quick' else 600
+    n_decks = 70 if tier == 'quick' else 600
     n_points = 120 if tier == 'quick' else 200
     n_sigma = 100 if tier == 'quick' else 200
     jobs, metas = [], []
@@ -771,11 +771,11 @@ def run(res, tier, seed, proofs_ok):
     run_corpus(res)
     tie_eq(res, rng, 300 if quick else 4000)
     tie_dedup(res, rng, 250 if quick else 2000)
-    tie_renumber(res, rng, 200 if quick else 1500)
+    tie_renumber(res, rng, 150 if quick else 1500)
     tie_finish(res, rng, 250 if quick else 2000)
     tie_inlining(res, rng, 250 if quick else 2000)
-    tie_fill(res, rng, 200 if quick else 1500)
-    tie_fill_tr(res, rng, 120 if quick else 800)
+    tie_fill(res, rng, 150 if quick else 1500)
+    tie_fill_tr(res, rng, 80 if quick else 800)
     run_sweep(res, tier, rng)
 
 
